@@ -1195,6 +1195,10 @@ def run_mutrace(ctx, rng, job):
     if ctx.case == 0:
         parked_rebase(ctx)
         scheduled_rebuild(ctx)
+        # (sequential, but the same clause: an answer cached below a base must not survive the base's rebuild() plus changes)
+        from zmon.engines.registry import rebuilt_base
+        for _ in range(6):
+            rebuilt_base(ctx, rng)
     """Mutation-window race.  One mutator performs registrations / subscriptions under *fresh* provided interfaces
     (first registration of that interface in the registry: the extendor and reference-count bookkeeping runs) and
     removes them again, in different members of a chain, with statement-level preemption injected inside the
